@@ -462,6 +462,102 @@ def pattern_job(args):
     return r
 
 
+def cdc_job(args):
+    """The CSR wrapper on a port in another clock domain (control / status words through AsyncFIFOs): the real
+    LiteDRAMBISTGenerator in Migen's two-clock simulation, driven the way the BIOS drives it (reset, program base / end / length /
+    random, start, poll done), twice with different windows; the words it writes are judged against the specification sequence."""
+    from migen import run_simulation
+    from litedram.common import LiteDRAMNativePort
+    from litedram.frontend import bist
+    seed, idx, tier = args
+    rnd = random.Random("c14cdc-%d-%d" % (seed, idx))
+    shims.install()
+    settings = []
+    dw = rnd.choice([8, 16, 32, 64])
+    while len(settings) < 2:
+        s = rand_setting(rnd, 4 * rnd.randrange(4) + (idx % 2))      # modes 0 / 1: the run fits its window
+        if s["axi"] or s["dw"] != dw:
+            continue
+        if settings and (s["aw"] != settings[0]["aw"]):
+            continue
+        s["n"] = min(s["n"], 40); s["length"] = s["n"] << s["ashift"]
+        s["ra"] = 1 if len(settings) == idx % 2 else s["ra"]
+        settings.append(s)
+    s0 = settings[0]
+    port = LiteDRAMNativePort("both", s0["aw"], s0["dw"], clock_domain="port")
+    dut = bist.LiteDRAMBISTGenerator(port)
+    shims.finalize_csrs(dut)
+    ps, pp = rnd.choice([(4, 4), (4, 6), (4, 10), (6, 8), (2, 14), (10, 10), (10, 4), (14, 2), (8, 6)])
+    clocks = {"sys": (ps, rnd.randrange(ps)), "port": (pp, rnd.randrange(pp))}
+    st = dict(phase=0, runs=[dict(cmds=[], datas=[]), dict(cmds=[], datas=[])], done=[None, None], stop=False)
+
+    def sysgen():
+        for k, s in enumerate(settings):
+            yield dut.reset.re.eq(1); yield
+            yield dut.reset.re.eq(0)
+            for _ in range(rnd.randint(2, 6)):
+                yield
+            yield dut.base.storage.eq(s["base"]); yield dut.end.storage.eq(s["end"]); yield dut.length.storage.eq(s["length"])
+            yield dut.random.storage.eq(s["rd"] | (s["ra"] << 1))
+            for _ in range(rnd.randint(1, 5)):
+                yield
+            st["phase"] = k
+            yield dut.start.re.eq(1); yield
+            yield dut.start.re.eq(0)
+            # the done flag of the previous run may still be up until the status words of this run arrive
+            for _ in range(12 * max(1, pp // ps) + 12):
+                yield
+            for t in range((80 * s["n"] + 400) * max(1, pp // ps)):
+                if (yield dut.done.status):
+                    st["done"][k] = t
+                    break
+                yield
+            for _ in range(20 * max(1, pp // ps)):
+                yield
+        st["stop"] = True
+
+    def portgen():
+        p_c = p_w = 1.0
+        t = 0
+        pc = pw = 0
+        while not st["stop"]:
+            cur = st["runs"][st["phase"]]
+            if pc and (yield port.cmd.valid):
+                cur["cmds"].append((yield port.cmd.addr))
+            if pw and (yield port.wdata.valid):
+                cur["datas"].append((yield port.wdata.data))
+            if t % 40 == 0:
+                p_c = rnd.choice([0.3, 0.8, 1.0, 1.0]); p_w = rnd.choice([0.3, 0.8, 1.0, 1.0])
+            pc = int(rnd.random() < p_c); pw = int(rnd.random() < p_w)
+            yield port.cmd.ready.eq(pc); yield port.wdata.ready.eq(pw)
+            t += 1
+            yield
+    run_simulation(dut, {"sys": [sysgen()], "port": [portgen()]}, clocks=clocks)
+    r = Result()
+    r.coverage["cdc_wrapper_runs"] = 1
+    for k, s in enumerate(settings):
+        n = s["n"]
+        sp = core.run_driver("bistspec", [cfg_line(s)] + ["4 %d" % i for i in range(n)] + ["5"])
+        seq = [[int(x) for x in l.split()] for l in sp[1:1 + n]]
+        exp_addr = [q[0] for q in seq]; exp_data = [q[1] for q in seq]
+        got = st["runs"][k]
+        r.evaluations += n + 1
+        r.distinct.add(("cdc", idx, k))
+        what = None
+        if st["done"][k] is None:
+            what = "done never reported"
+        elif got["cmds"] != exp_addr or got["datas"] != exp_data:
+            j = next((i for i in range(max(n, len(got["cmds"]))) if i >= len(got["cmds"]) or i >= n or got["cmds"][i] != exp_addr[i]), None)
+            jd = next((i for i in range(max(n, len(got["datas"]))) if i >= len(got["datas"]) or i >= n or got["datas"][i] != exp_data[i]), None)
+            what = "wrote %d commands / %d data words for a %d-word run; first differing command position %s (0x%x for 0x%x), data position %s" % (
+                len(got["cmds"]), len(got["datas"]), n, j, got["cmds"][j] if j is not None and j < len(got["cmds"]) else 0,
+                exp_addr[j] if j is not None and j < n else 0, jd)
+        if what and not r.violations:
+            r.violations.append(dict(signature="c14-cdc-wrapper", what="LiteDRAMBISTGenerator on a %d-bit port in another clock domain (sys period %d, port period %d), run %d (base 0x%x end 0x%x, random addr %d): %s"
+                                     % (s["dw"], ps, pp, k + 1, s["base"], s["end"], s["ra"], what), replay=dict(settings=settings, clocks=clocks, seed=seed, idx=idx)))
+    return r
+
+
 def witness_job(_):
     """the Lean counterexample of Props/C14 (`addr_out_of_range_witness`: 32-bit native port, base=4, end=8, 6 words) replayed on the real generator"""
     rnd = random.Random("c14-witness")
@@ -482,7 +578,8 @@ def _dispatch(j):
 
 def run(tier, seed):
     n = 96 if tier == "quick" else 600
-    jobs = [(job, (seed, i, tier)) for i in range(n)] + [(witness_job, None)] + [(pattern_job, (seed, i, tier)) for i in range(24 if tier == "quick" else 200)]
+    jobs = [(job, (seed, i, tier)) for i in range(n)] + [(witness_job, None)] + [(pattern_job, (seed, i, tier)) for i in range(24 if tier == "quick" else 200)] + \
+           [(cdc_job, (seed, i, tier)) for i in range(16 if tier == "quick" else 120)]
     res = Result()
     for r in core.pmap(_dispatch, jobs):
         res.merge(r)
